@@ -12,7 +12,16 @@ lists these contracts as `carried`, their functions under `functions_under_contr
 entry: property -> [(home property, contract name, config filter or None)]
 """
 
+def _stateful(cfg):
+    return bool(cfg.get("state"))
+
+
 CARRIED = {
+    # the Newton driver is verified (E2 loop cut) against items whose assemble.vector / assemble.matrix only compute a
+    # TENTATIVE new state and commit nothing (commit happens in update_statevars on success only): that is the C01
+    # contract of the real SolidBody around a material with stored state variables
+    "C07": [("C01", "solidbody", _stateful)],
+    "C15": [("C01", "solidbody", _stateful)],
     # solid bodies on mixed u/p/J fields are verified against StubMixedMaterial (blocks == mixed derivatives of the
     # three-field functional), follower loads against StubAreaChange (cofactor and its derivative)
     "C01": [("C03", "mixed", None), ("C03", "kinematics", None)],
